@@ -3,7 +3,7 @@ Model of (*openapi3.T).InternalizeRefs (openapi3/internalize_refs.go): isExterna
 routines (one generic `addCore`; the callback variant overwrites without an existence test, as the code does),
 the deref* descent with its parent-is-external flag, the THREE visited sets of openapi3/visited.go (schemas,
 headers, path items), the nil guards of derefHeaders / derefContent / derefPaths, the "always dereference the top
-level" resets and the inlining of path-item references.
+level" resets and the inlining of path-item references; a reference without value is left alone (05c5875).
 
 Input: the abstraction of a LOADED document (`Heap`): ref cells (the *XRef structs: collection, $ref text,
 RefPath(), resolved value id or -1 for nil), values (the pointed-to objects, with their child cells in the order
@@ -87,7 +87,7 @@ inductive Comp
 inductive Ev
   | added (c : Nat) (name : Str) (pext : Bool)                 -- new component created
   | reused (c : Nat) (name : Str) (same : Bool) (pext : Bool)  -- a component of that name existed (same = same content class)
-  | notExternal (c : Nat) (pext : Bool)
+  | notExternal (c : Nat) (pext : Bool)                         -- returned early: no value, or the text is not external
   deriving Repr, DecidableEq
 
 def Ev.cell : Ev → Nat
@@ -187,7 +187,9 @@ def addBranches (s : St) (cell : Cell) (cur nm : Str) (amb pext : Bool) (info : 
 def addCore (s : St) (c : Nat) (pext : Bool) : Except Err (Bool × St) :=
   let cell := cellOf h c
   let cur := s.refs[c]!
-  if !isExternalRef cur pext then
+  -- `x == nil || x.Value == nil || !isExternalRef(x.Ref, parentIsExternal)` (05c5875: a reference the loader left without
+  -- value is left alone)
+  if cell.val < 0 || !isExternalRef cur pext then
     .ok (false, { s with log := .notExternal c pext :: s.log })
   else
     let info : RefInfo := { ref := cur, refPath := cell.refPath, coll := cell.k }
@@ -396,9 +398,12 @@ def topSchemas (n : Nat) : List Nat → M Unit
   | [] => pure ()
   | c :: cs => do
     let isExt ← addToSpec h c false
-    clearRef c
-    derefSchema h n (valOf h c) isExt
-    topSchemas n cs
+    if valOf h c ≥ 0 then do
+      clearRef c
+      derefSchema h n (valOf h c) isExt
+      topSchemas n cs
+    else
+      topSchemas n cs
 
 def topParameters (n : Nat) : List Nat → M Unit
   | [] => pure ()
@@ -571,7 +576,8 @@ own paths section and closes a cycle through a callback: the result is an infini
 def InlinedCycle (s : St) : Bool := !finiteB h s
 
 /-- F-C16-10: a reference the loader left without value or without RefPath although the document loaded (no POSITION is
-left unvisited since cbb0d05; what remains are the loader's text-keyed visited table and foreign-context walks, C02) -/
+left unvisited since cbb0d05; what remains are the loader's backtrack callbacks registered on local copies, C02).
+InternalizeRefs leaves such a reference alone (05c5875), so an external text stays -/
 def Unresolved : Bool := h.cells.toList.any fun c => !c.ref.isEmpty && (c.val < 0 || c.refPath.isNone)
 
 /-- a reachable path item the descent did not inline -/
